@@ -261,6 +261,8 @@ class Hist(Scenario):
         else:
             # finding D82 (see op_destructive / mv): commit exactly the chosen paths, not whatever else happens to be staged
             others = [f for f in changed if f not in chosen]
+            if not self.profile.get("reset_path_dash_name", True):
+                others = [f for f in others if not f.startswith("-")]      # finding D56: `git reset -- -name` (used below to unstage)
             left_staged = []
             if others and self.rng.random() < 0.5:
                 # other files are staged as a whole (index == work tree, so no unstaged hunk inside them) and left out by the
